@@ -168,6 +168,9 @@ class XPathContext:
             node = self.root if self.root is not None else self.item
             tree = getattr(node, 'tree', None)
             if tree is not None and tree.schema is not None:
+                # A schema is applied to the whole tree, also from an inner node
+                while isinstance(node, ElementNode) and isinstance(node.parent, ElementNode):
+                    node = node.parent
                 cast(XPathNode, node).clear_types()
                 tree.schema = None
 
@@ -236,6 +239,9 @@ class XPathContext:
         if schema is None:
             node = self.root if self.root is not None else self.item
             if isinstance(node, XPathNode):
+                # A schema is applied to the whole tree, also from an inner node
+                while isinstance(node, ElementNode) and isinstance(node.parent, ElementNode):
+                    node = node.parent
                 node.clear_types()
                 if getattr(node, 'tree', None) is not None:
                     node.tree.schema = None  # type: ignore[union-attr]
@@ -246,7 +252,12 @@ class XPathContext:
                 # it skips a not assertion-based schema that is already applied to the tree.
                 tree = getattr(node, 'tree', None)
                 if tree is None or tree.schema is not schema or schema.is_assertion_based():
-                    node.clear_types()
+                    top = node
+                    if getattr(schema, 'base_element', None) is None:
+                        # apply_schema() is going to type the whole tree
+                        while isinstance(top, ElementNode) and isinstance(top.parent, ElementNode):
+                            top = top.parent
+                    top.clear_types()
                 node.apply_schema(schema)
         else:
             msg = f"{schema!r} is not an instance of AbstractSchemaProxy"
